@@ -10,6 +10,7 @@ mod fixtures;
 mod genp;
 mod hist;
 mod keycheck;
+mod oddalloc;
 mod payloads;
 mod plan;
 mod prng;
@@ -21,6 +22,9 @@ mod runner;
 mod sched;
 mod textcheck;
 mod world;
+
+#[global_allocator]
+static GLOBAL: oddalloc::PlacementAlloc = oddalloc::PlacementAlloc;
 
 use runner::Tier;
 
